@@ -58,7 +58,7 @@ CLAIMS = {
          "for all wf a, b), per-key object equation, array equation, scalar-kind pairs give exactly the OneOf of the two, plus the from_sources corollaries. "
          "Correspondence: merger on all 103041 level-1 pairs and random related deep pairs in both orders, from_sources on pairs and wrapped pairs; oracle: "
          "laws re-evaluated on the implementation, order-insensitivity by witness documents validated by Sem.mem.", "6/C08"),
- "C09": ("The property in full is a THEOREM (C09_readd): for EVERY source sequence h that infers and EVERY d in h (any position, no side condition) there is one shape m1 with from_sources(h+[d]*(k+1)) = m1 for all k — the shape stops changing after at most one re-addition — and m1 admits exactly the documents from_sources(h) admits (Sem.mem); proved via an absorption invariant preserved by merger. Corollaries in the property's wording (C09_readd_meaning, C09_readd_stable, C09_readd_ok), text-level C09_text_readd, tightness witness (C09_readd_changes_once), and: when the merged shape is OneOf-free nothing changes at all. The pairwise add_twice for ARBITRARY accumulated shapes keeps the hypothesis no_null_array, with a witness that it is needed there. Correspondence + oracle: thousands of histories with d at random positions; an exhaustive model/implementation search over 16M histories found no counterexample (NOTES-c09.md).", "6/C09"),
+ "C09": ("The property in full is a THEOREM (C09_readd): for EVERY source sequence h that infers and EVERY d in h (any position, no side condition) there is one shape m1 with from_sources(h+[d]*(k+1)) = m1 for all k — the shape stops changing after at most one re-addition — and m1 admits exactly the documents from_sources(h) admits (Sem.mem); proved via an absorption invariant preserved by merger. Corollaries in the property's wording (C09_readd_meaning, C09_readd_stable, C09_readd_ok), text-level C09_text_readd, tightness witness (C09_readd_changes_once), and: when the merged shape is OneOf-free nothing changes at all. The pairwise add_twice for ARBITRARY accumulated shapes keeps the hypothesis no_null_array, with a witness that it is needed there. Beyond the property's quantifier, C09_readd_any: ANY re-additions of documents already among the sources (several, interleaved, any order, any number) never fail and never change the admitted documents; C09_readd_any_not_syntactic shows the syntactic clause does not generalise that way. Correspondence + oracle: thousands of histories with d at random positions and with random interleaved re-additions; an exhaustive model/implementation search over 16M histories found no counterexample (NOTES-c09.md).", "6/C09"),
  "C10": ("Six theorems prove reflexivity, optional widening, null-in-optional and the similar laws for ALL well-formed shapes; model tied to /repo by "
          "all 103041 level-1 pairs plus random deep related pairs; statements re-evaluated on the implementation's own answers.", "6/C10"),
  "C13": ("Theorems (Properties/C13.v): for EVERY shape in the decidable class good_names (emitted definition names pairwise distinct, snake-cased member names legal and distinct, variant names distinct, tuples <= 12 wide) the generated items form a well-formed module "
